@@ -103,7 +103,25 @@ def z3_to_cvc5(smt2):
     return "(set-logic ALL)\n" + s + "\n(check-sat)\n"
 
 
-def run_cvc5(smt2, timeout_s=None):
+def _run_cancellable(cmd, timeout_s, cancel=None):
+    """subprocess.run with a cancel event (used when two solvers race on one query)"""
+    p = subprocess.Popen(cmd, stdout=subprocess.PIPE, stderr=subprocess.PIPE, text=True)
+    t0 = time.time()
+    while True:
+        try:
+            out, errt = p.communicate(timeout=0.25)
+            return out, errt, False
+        except subprocess.TimeoutExpired:
+            if (cancel is not None and cancel.is_set()) or time.time() - t0 > timeout_s:
+                p.kill()
+                try:
+                    p.communicate(timeout=2)
+                except Exception:
+                    pass
+                return "", "", True
+
+
+def run_cvc5(smt2, timeout_s=None, cancel=None):
     timeout_s = timeout_s or CVC5_TIMEOUT_S
     text = z3_to_cvc5(smt2)
     with tempfile.NamedTemporaryFile("w", suffix=".smt2", delete=False, dir=os.environ.get("TMPDIR", "/tmp")) as f:
@@ -111,10 +129,12 @@ def run_cvc5(smt2, timeout_s=None):
         path = f.name
     t0 = time.time()
     try:
-        p = subprocess.run([CVC5, "--strings-exp", f"--tlimit={timeout_s * 1000}", path], capture_output=True, text=True, timeout=timeout_s + 5)
-        out = (p.stdout or "").strip().splitlines()
+        so, se, killed = _run_cancellable([CVC5, "--strings-exp", f"--tlimit={timeout_s * 1000}", path], timeout_s + 5, cancel)
+        if killed:
+            raise subprocess.TimeoutExpired(CVC5, timeout_s)
+        out = (so or "").strip().splitlines()
         verdict = out[0].strip() if out else "unknown"
-        reason = (p.stderr or "").strip()[:300] if verdict not in ("sat", "unsat") else ""
+        reason = (se or "").strip()[:300] if verdict not in ("sat", "unsat") else ""
         if verdict not in ("sat", "unsat", "unknown"):
             reason = (verdict + " " + reason)[:300]
             verdict = "unknown"
@@ -132,7 +152,7 @@ Z3CLI = "z3-new"
 _DEF = re.compile(r"\(define-fun\s+(\S+)\s+\(\)\s+(\S+)\s+((?:\"(?:[^\"]|\"\")*\")|[^\s()]+|\(- \d+\))\)")
 
 
-def run_z3_cli(smt2, timeout_s=40):
+def run_z3_cli(smt2, timeout_s=40, cancel=None):
     """The z3 command-line front end uses a different default strategy than the API solver: third portfolio member."""
     text = smt2.replace("(check-sat)", "(check-sat)\n(get-model)")
     with tempfile.NamedTemporaryFile("w", suffix=".smt2", delete=False, dir=os.environ.get("TMPDIR", "/tmp")) as f:
@@ -141,8 +161,10 @@ def run_z3_cli(smt2, timeout_s=40):
     t0 = time.time()
     model = None
     try:
-        p = subprocess.run([Z3CLI, f"-T:{timeout_s}", path], capture_output=True, text=True, timeout=timeout_s + 5)
-        out = (p.stdout or "")
+        so, _se, killed = _run_cancellable([Z3CLI, f"-T:{timeout_s}", path], timeout_s + 5, cancel)
+        if killed:
+            raise subprocess.TimeoutExpired(Z3CLI, timeout_s)
+        out = (so or "")
         first = out.strip().splitlines()[0].strip() if out.strip() else "unknown"
         verdict = first if first in ("sat", "unsat") else "unknown"
         reason = "" if verdict != "unknown" else first[:200]
@@ -185,19 +207,41 @@ def decide(job):
                 res["verdict"] = "disagree"
                 res["detail"] = f"z3={r} cvc5={r2}"
         return res
-    r2, dt2, _m, why2 = run_cvc5(smt2, job.get("cvc5_s"))
-    res["time_s"] += dt2
-    if r2 in ("sat", "unsat"):
-        res.update(backend="cvc5", verdict=r2)
-        return res
-    if job.get("cvc5_s", 99) > 6:      # not for the cheap cover / finding probes
-        r3, dt3, m3, why3 = run_z3_cli(smt2)
-        res["time_s"] += dt3
-        if r3 in ("sat", "unsat"):
-            res.update(backend="z3-cli", verdict=r3, model=m3)
+    if job.get("cvc5_s", 99) <= 6:      # cheap cover / finding probes: cvc5 only
+        r2, dt2, _m, why2 = run_cvc5(smt2, job.get("cvc5_s"))
+        res["time_s"] += dt2
+        if r2 in ("sat", "unsat"):
+            res.update(backend="cvc5", verdict=r2)
             return res
-        why2 += f"; z3-cli: {why3}"
-    res.update(backend="none", verdict="unknown", detail=f"z3: {why}; cvc5: {why2}")
+        res.update(backend="none", verdict="unknown", detail=f"z3: {why}; cvc5: {why2}")
+        return res
+    # cvc5 and the z3 command-line front end (different default strategy) race; the first definite answer wins
+    import threading
+    cancel = threading.Event()
+    box = {}
+
+    def _a():
+        box["cvc5"] = run_cvc5(smt2, job.get("cvc5_s"), cancel)
+        if box["cvc5"][0] in ("sat", "unsat"):
+            cancel.set()
+
+    def _b():
+        box["z3-cli"] = run_z3_cli(smt2, cancel=cancel)
+        if box["z3-cli"][0] in ("sat", "unsat"):
+            cancel.set()
+    t0 = time.time()
+    ths = [threading.Thread(target=_a), threading.Thread(target=_b)]
+    for th in ths:
+        th.start()
+    for th in ths:
+        th.join()
+    res["time_s"] += time.time() - t0
+    for name in ("cvc5", "z3-cli"):
+        r_, _dt, m_, _why = box.get(name, ("unknown", 0, None, ""))
+        if r_ in ("sat", "unsat"):
+            res.update(backend=name, verdict=r_, model=m_)
+            return res
+    res.update(backend="none", verdict="unknown", detail=f"z3: {why}; cvc5: {box.get('cvc5', ('', 0, None, ''))[3]}; z3-cli: {box.get('z3-cli', ('', 0, None, ''))[3]}")
     return res
 
 
